@@ -39,6 +39,8 @@ def has_coord(k) -> bool:
     if isinstance(k, tuple):
         if k[0] in ("TUPLE", "ZIP"):
             return any(has_coord(x) for x in k[1])
+        if k[0] == "REC":
+            return any(has_coord(v) for _, v in k[2])
         return any(has_coord(x) for x in k[1:])
     return False
 
@@ -179,6 +181,8 @@ class _Typer:
                     self.bind(e, PC)
                 elif v == VEC:
                     self.bind(e, VC)
+                elif isinstance(v, tuple) and v[0] == "REC" and i < len(v[2]):
+                    self.bind(e, v[2][i][1])
                 elif isinstance(v, tuple) and v[0] == "LIST":
                     self.bind(e, v[1])  # a, b, c = [f(x) for x in ...]: every name gets the element kind
                 else:
@@ -283,6 +287,8 @@ class _Typer:
     def e_Attribute(self, e):
         b = self.ev(e.value)
         a = e.attr
+        if isinstance(b, tuple) and b[0] == "REC":
+            return dict(b[2]).get(a, UNK)  # field of a record built in the analysed code (NamedTuple / plain dataclass)
         if b == ATOM:
             return {"x": PC, "y": PC, "z": PC, "coordinates": PT, "occupancy": INV}.get(a, ID)
         if b == RES:
@@ -542,6 +548,13 @@ class _Typer:
             return ID if f in ("range", "str", "int", "bool", "isinstance", "all", "any", "hash") else UNK
         if f.startswith("logging.") or f.startswith("logger."):
             return NONE
+        # a record class of the analysed module (NamedTuple / dataclass without methods): the value carries the kinds of its fields
+        if isinstance(e.func, ast.Name):
+            rec = self._record_fields(e.func.id)
+            if rec is not None and len(args) + len(kws) <= len(rec):
+                vals = dict(zip(rec, args))
+                vals.update({k: v for k, v in kws.items() if k in rec})
+                return ("REC", e.func.id, [(f, vals.get(f, UNK)) for f in rec])
         # repo callees: analyse with the actual argument kinds
         callee, recv = self._resolve(e)
         if callee is not None:
@@ -562,6 +575,21 @@ class _Typer:
         if any(has_coord(a) for a in args) or any(has_coord(v) for v in kws.values()):
             self.err(e, f"coordinate-dependent value passed to `{f}`, which is not known to be rotation/translation-equivariant")
         return UNK
+
+    def _record_fields(self, name: str) -> Optional[List[str]]:
+        try:
+            hm, hn = self.eng.repo.const_home(self.fi.module.name, name)
+            c = self.eng.repo.modules[hm].classes.get(hn)
+        except Exception:
+            return None
+        if c is None or any(isinstance(b, (ast.FunctionDef, ast.AsyncFunctionDef)) for b in c.body):
+            return None
+        is_nt = any(ast.unparse(b).endswith("NamedTuple") for b in c.bases)
+        is_dc = any("dataclass" in ast.unparse(d) for d in c.decorator_list)
+        if not (is_nt or is_dc):
+            return None
+        fields = [b.target.id for b in c.body if isinstance(b, ast.AnnAssign) and isinstance(b.target, ast.Name)]
+        return fields or None
 
     def _resolve(self, e: ast.Call) -> Tuple[Optional[FuncInfo], Any]:
         repo = self.eng.repo
